@@ -60,7 +60,8 @@ TRUSTED = [
 ]
 ASSUMPTIONS = [
     "values: None, bool, int, str, bytes, list, tuple, dict (insertion order fixed: it is part of what is pickled and the property "
-    "does not quantify over it), set, frozenset, dataclass instances; no floats, no two `==`-equal elements offered to one set "
+    "does not quantify over it), set, frozenset, dataclass instances (also with non-field __dict__ entries), floats (no NaN; a "
+    "top-level set containing floats is hashed for the oracle but sorted() on floats is not modelled), no two `==`-equal elements offered to one set "
     "(e.g. 1 and True), no Value subclasses with their own get_hash (File etc. are C30)",
     "'the same value' = same specification built by the same code in every process, with the elements of every set/frozenset "
     "inserted in a per-run permuted order",
@@ -70,12 +71,16 @@ ASSUMPTIONS = [
 RULE = ("value specifications generated from one PRNG (scalars, nested list/tuple/dict/set/frozenset/dataclass, depth <= 4, sets at "
         "top level, nested, inside frozensets and dataclass fields; colliding ints; unicode strs; mixed-kind sets), each hashed by the "
         "real TypeRegistry.get_hash in fresh interpreters started with different PYTHONHASHSEED values and, per interpreter, under "
-        "several permuted insertion orders; the worker prints the layout it observed; the Lean model maps every layout to a hash "
+        "several permuted insertion orders, and with different HISTORIES (the interpreters meet the values in forward / reverse order, or "
+        "meet only the even / odd half of them); look-alike families (values that are == in Python but pickle differently: int / float / "
+        "bool spellings of the same numbers inside nested tuples, 0.0 / -0.0, 1 / 1.0 / True) sit next to each other so that each is "
+        "hashed alone, before and after its look-alikes; the worker prints the layout it observed; the Lean model maps every layout to a hash "
         "pre-image. The worker obtains the hash five ways: TypeRegistry.get_hash(value), value_interface.get_hash(data=serialize()), a "
         "real RedunBackendDb.record_value(value), and (witnesses, corpus, first generated values) Argument.value_hash and "
         "CallNode.value_hash recorded by a real Scheduler for the call ident(value). Correspondence: pre-image <-> hash must be a "
         "bijection over ALL observed layouts and the first three ways (so the model predicts exactly "
-        "which values are order sensitive). Oracle: all runs of one value must give one hash, for each of the five ways. distinct = distinct specifications; "
+        "which values are order sensitive). Oracle: all runs of one value must give one hash, for each of the five ways; the ways agree inside one process; look-alikes with "
+        "different pickles (computed by the harness with plain pickle) never share a hash. distinct = distinct specifications; "
         "non-trivial = contains a set or frozenset")
 LEVEL_TEXT = (
     "The full-strength statement (OrderIndependent: values equal up to the order of set/frozenset elements - Sim, proved to be an "
@@ -99,7 +104,9 @@ LEVEL_TEXT = (
     "different PYTHONHASHSEED and permuted insertion orders vs. model pre-images, bijection over all observed layouts; the "
     "witnesses are replayed on the real code on every run.")
 LEVEL_NOTE = (
-    "partial: hash randomisation itself lives in the interpreter; the model does not predict iteration orders, it takes the observed "
+    "partial: the model is a pure function of the layout, so it cannot exhibit process state (a memo / cache inside get_hash that makes the "
+    "hash depend on what the process hashed before): that is covered by the tie only (different histories per interpreter, look-alike "
+    "families). Hash randomisation itself lives in the interpreter; the model does not predict iteration orders, it takes the observed "
     "layout as input and predicts the hash pre-image. pickle's byte format, memoisation and sorted() are modelled as stated in the "
     "trusted base, not verified. Top-level sets of partially ordered elements are outside the model (oracle only).")
 TECHNIQUE = "Lean 4 proof on a layout model of pickle/sorted + differential correspondence over fresh interpreters (PYTHONHASHSEED)"
